@@ -290,7 +290,10 @@ def _prepare_fixture_vars_and_params(
         if id(value) in fixture_ids and value is not lcf_obj:
           if id(value) not in fixture_params:
             fixture_params[id(value)] = []
-          fixture_params[id(value)].append(code_ir.Parameter(name=name))
+          # The un-memoized iteration reaches a sub-fixture once per path to it;
+          # a shared node is nevertheless only one parameter.
+          if all(param.name is not name for param in fixture_params[id(value)]):
+            fixture_params[id(value)].append(code_ir.Parameter(name=name))
   return fixture_vars, fixture_params
 
 
